@@ -178,7 +178,7 @@ pub struct Rich {
 
 impl Rich {
     pub fn new(lo: usize, hi: usize, kinds: Vec<&'static str>) -> Rich {
-        Rich { g: Grammar::new(1, 1, 8, 7, hi), lo, hi, entry_kinds: kinds }
+        Rich { g: Grammar::new(1, 1, 9, 7, hi), lo, hi, entry_kinds: kinds }
     }
 }
 
@@ -211,7 +211,9 @@ impl Family for Rich {
             4 => Msg::Delegate { validator: super::world::VALIDATOR.into(), denom: "TOKEN".into(), amount: 0 },
             5 => Msg::Delegate { validator: "nobody".into(), denom: "TOKEN".into(), amount: 1 },
             6 => Msg::UpdateAdmin { target: Target::Other, admin: ad.poor.clone() },
-            _ => Msg::ClearAdmin { target: Target::Other },
+            7 => Msg::ClearAdmin { target: Target::Other },
+            // fails only after the staking module has recorded the stake (the bank transfer fails)
+            _ => Msg::Delegate { validator: super::world::VALIDATOR.into(), denom: "TOKEN".into(), amount: 100 },
         }
     }
     fn call(&self, c: u64, child: usize, _ad: &Addrs) -> Msg {
